@@ -42,14 +42,15 @@ DEFAULT_SPEC = {
     "tie_perm": 0,         # permutation seed for record order among equal positions
     "exp_polya": None,     # per-experiment list: 0 = this experiment's reads are polyA-trimmed
     "gene_naming": 0,      # 0: G<n>; 1: zg<n> (lower case, sorts after novel_gene_); 2: si:dkey-<n>
-    "group_naming": 0,     # 0: grp<n>/g<nn>; 1: G<n> (sorts before NA); 2: <n>x (digit first); 3: mixed case
+    "group_naming": 0,     # 0: grp<n>/g<nn>; 1: G<n> (sorts before NA); 2: <n>x (digit first); 3: mixed case; 4: numbers
     "drop_chr_annotation": 0,  # genes of the last k chromosomes are left out of the GTF (reads stay)
     "readthrough": 0,      # k same-strand genes that duplicate another gene's first isoform under a new gene id
     "mirror": 0,           # k antisense genes with exon coordinates identical to another gene's first isoform
     "intergenic_multi": 0, # k reads whose only usable alignments are tied multi-exon secondaries in gene-free loci
     "deep_gene": 0,        # 1: one gene gets ~230 reads (200/20 per isoform, 3 novel, 10 truncated); 2: a dedicated six-exon gene
                            #    with that coverage, an unannotated exon-skipping isoform with 3 reads and 10 tail-less reads that fit both
-    "long_locus": 0,       # 1: extra chromosome chrL with a > 64 kb read island that IsoQuant splits at a coverage valley
+    "long_locus": 0,       # 1: extra chromosome chrL with a > 64 kb read island that IsoQuant splits at a coverage valley; 2: the
+                           #    valley gene's first exon spans the split point and two more of its reads start right of it
     "exp_bams": None,      # per-experiment number of files (overrides n_bams)
     "novel_one_file": 0,   # reads of unannotated isoforms all go to the first file of their experiment
     "illumina": None,      # per-experiment list: 1 = the experiment comes with a short-read BAM (junction reads on the
@@ -71,8 +72,11 @@ DEFAULT_SPEC = {
     "mapq_mix": 0,         # 1: every third read of an isoform gets a mapping quality from the cycle 5, 20, 1, 4, 59, 10
     "paralog_iso": 0,      # 1: paralog sources are chosen among genes with two isoforms that share >= 2 consecutive exons; two reads
                            #    per such gene cover only the shared exons (locally ambiguous) and have a secondary record on the paralog
+    "tiny_exon": 0,        # 1: the first chromosome gets an annotated gene one of whose isoforms has a 1-bp middle exon (with reads)
+    "hash_names": 0,       # 1: every third read name starts with '#' (a valid QNAME character)
     "group_tag": "RG",     # BAM tag that carries the group (C09: --read_group tag:<TAG>)
-    "twin_chr": 0,         # 1: extra chromosome that is a copy of the first one (same coordinates and strands, own gene ids and reads)
+    "twin_chr": 0,         # 1: extra chromosome that is a copy of the first one (same coordinates and strands, own gene ids and reads);
+                           #    2: its unannotated locus (novel_locus) carries splice sites of the other strand
     "novel_gene_overlap": 0,  # k unannotated transcripts inside an annotated gene's span with entirely novel (shifted) introns
     "bam_split": "random", # how reads are dealt into files: random | chunks (contiguous by position) | tiny (one file gets 1 read)
 }
@@ -141,7 +145,9 @@ def _shared_exons(g):
 
 
 def group_name(s, k):
-    ng, sch = s["groups"], s.get("group_naming", 0) % 4
+    ng, sch = s["groups"], s.get("group_naming", 0) % 5
+    if sch == 4:
+        return "%d" % (k + 1)         # purely numeric group names (e.g. haplotype tags HP:i:1)
     if sch == 1:
         return "G%d" % k
     if sch == 2:
@@ -218,6 +224,16 @@ def generate(spec):
         h.no_extra = n_.no_extra = True
         genes[0] += [h, n_]
         layout[0] = ex[-1][1] + 1500
+    if s["tiny_exon"]:
+        pos = layout[0] + 400
+        ex = [(pos, pos + 180), (pos + 420, pos + 420), (pos + 700, pos + 900), (pos + 1150, pos + 1330)]
+        gcount += 1
+        tg_ = Gene(gene_name(s, gcount), CHR_NAMES[0], "+", ex)
+        tg_.isoforms = [(tg_.gid + ".t1", [0, 1, 2, 3]), (tg_.gid + ".t2", [0, 2, 3])]
+        tg_.no_extra = True
+        tg_.no_trunc = True
+        genes[0].append(tg_)
+        layout[0] = ex[-1][1] + 1400
     deep2 = None
     if s["deep_gene"] >= 2:
         # dedicated gene DG: K1 = A B C D E F (200 full-length reads), K2 = A C D F (20), unannotated N = A B C D F (3 full-length
@@ -393,7 +409,12 @@ def generate(spec):
         l2.isoforms = [(l2.gid + ".t1", [0, 1, 2, 3])]
         gcount += 1
         # small annotated gene sitting in the coverage valley between the two long genes: its single read straddles the split
-        lb = Gene(gene_name(s, gcount), "chrL", "+", [(36240 + o, 36410 + o), (36700 + o, 37080 + o)])
+        if s["long_locus"] >= 2:
+            # variant 2: the first exon of the valley gene spans the split point, its only intron lies right of it; a second
+            # read of that isoform starts right of the split point (the isoform is seen in both processing regions)
+            lb = Gene(gene_name(s, gcount), "chrL", "+", [(36240 + o, 36900 + o), (36990 + o, 37080 + o)])
+        else:
+            lb = Gene(gene_name(s, gcount), "chrL", "+", [(36240 + o, 36410 + o), (36700 + o, 37080 + o)])
         lb.isoforms = [(lb.gid + ".t1", [0, 1])]
         long_genes = [l1, l2, lb]
         genes.append(long_genes)
@@ -462,7 +483,12 @@ def generate(spec):
             tg.annotation_only = getattr(g, "annotation_only", False)
             tg.hidden = getattr(g, "hidden", False)
             tg.no_extra = True
+            tg.no_trunc = getattr(g, "no_trunc", False)
             tg.twin = True
+            if s["twin_chr"] >= 2 and tg.hidden and len(tg.exons) >= 2 and not g.noncanon:
+                # variant 2: the unannotated locus of the twin has the same coordinates but splice sites of the OTHER strand
+                tg.strand = "-" if g.strand == "+" else "+"
+                _plant_sites(chroms[-1][1], tg.exons, tg.strand, canonical=True)
             twin_genes.append(tg)
         genes.append(twin_genes)
     if s["decoy_chr"]:
@@ -539,7 +565,7 @@ def generate(spec):
             for k in range(cov):
                 blocks = [g.exons[i] for i in idx]
                 kind = "exact"
-                if s["truncate"] and not is_novel and len(blocks) >= 3 and k % 4 == 3:
+                if s["truncate"] and not is_novel and len(blocks) >= 3 and k % 4 == 3 and not getattr(g, "no_trunc", False):
                     # 5' truncated read (keeps the polyA end)
                     blocks = blocks[1:] if g.strand == "+" else blocks[:-1]
                     kind = "trunc"
@@ -653,6 +679,12 @@ def generate(spec):
             rid += 1
             reads.append({"id": "r%04d" % rid, "src": kind, "gene": None, "kind": kind,
                           "records": [mk_record("chrL", [(max(1, a), b) for a, b in blocks], "+", False)]})
+        if s["long_locus"] >= 2:
+            for k in range(2):
+                rid += 1
+                blocks = [(lb.exons[0][0] + 480 + 9 * k, lb.exons[0][1]), lb.exons[1]]
+                reads.append({"id": "r%04d" % rid, "src": lb.isoforms[0][0], "gene": lb.gid, "kind": "valley_gene_right_of_split",
+                              "records": [mk_record("chrL", blocks, "+", bool(s["polya"]))]})
     if pile_gene is not None:
         extra = []
         for k in range(3):
@@ -1003,7 +1035,9 @@ def build(spec, outdir, gtf_gz=False, write_bams=True):
                     a.next_reference_start = -1
                     tags = [("NM", 0)]
                     if r["group"] is not None:
-                        tags.append((s.get("group_tag") or "RG", r["group"]))
+                        gt = s.get("group_tag") or "RG"
+                        # integer-typed tags (HP:i:1) when the tag is HP and the group name is a number
+                        tags.append((gt, int(r["group"]) if gt == "HP" and r["group"].isdigit() else r["group"]))
                     a.set_tags(tags)
                     out.write(a)
                 for u in range(fi, s["unmapped"], len(exp["files"])):
@@ -1027,9 +1061,13 @@ def build(spec, outdir, gtf_gz=False, write_bams=True):
 
 def read_name(r, s):
     """read id as written to BAM: suffix carries the group for --read_group read_id:_"""
+    rid = r["id"]
+    if s.get("hash_names") and (int(rid[1:]) % 3 == 0 or r.get("kind") == "intergenic"):
+        # the intergenic reads at positions 40-220 are the first records of their chromosome
+        rid = "#" + rid
     if s["groups"] and r["group"] is not None:
-        return "%s_%s" % (r["id"], r["group"])
-    return r["id"]
+        return "%s_%s" % (rid, r["group"])
+    return rid
 
 
 def digest_inputs(outdir):
@@ -1066,11 +1104,11 @@ def random_spec(rng, profile="small"):
              chr_order=rng.choice([0, 1, 2]), gene_naming=rng.choice([0, 0, 1, 2]), group_naming=rng.choice([0, 1, 2, 3]),
              drop_chr_annotation=rng.choice([0, 0, 0, 1]), readthrough=rng.choice([0, 0, 1]), mirror=rng.choice([0, 0, 1]),
              intergenic_multi=rng.choice([0, 0, 1, 2]), deep_gene=rng.choice([0] * 9 + [1, 2]),
-             long_locus=rng.choice([0, 0, 0, 0, 1]), bam_split=rng.choice(["random", "random", "chunks", "tiny"]),
+             long_locus=rng.choice([0, 0, 0, 0, 1, 2]), bam_split=rng.choice(["random", "random", "chunks", "tiny"]),
              novel_gene_overlap=rng.choice([0, 0, 1]), chr_naming=rng.choice([0, 0, 0, 1]), split_gene=rng.choice([0, 0, 1]),
-             decoy_chr=rng.choice([0, 0, 1]), novel_locus=rng.choice([0, 0, 1]), twin_chr=rng.choice([0, 0, 0, 1]),
+             decoy_chr=rng.choice([0, 0, 1]), novel_locus=rng.choice([0, 0, 1]), twin_chr=rng.choice([0, 0, 0, 1, 2]),
              bridge=rng.choice([0, 0, 0, 2]), outside_exon=rng.choice([0, 0, 0, 1]), ambig_multi=rng.choice([0, 0, 0, 3]),
-             sq_order=rng.choice([0, 0, 1]))
+             sq_order=rng.choice([0, 0, 1]), tiny_exon=rng.choice([0, 0, 0, 1]))
     return s
 
 
